@@ -311,7 +311,16 @@ func TestC42(t *testing.T) {
 				}
 				hist = append(hist, q)
 			}
-			yield(vt.Case{"src": "rand-fault", "iv": iv, "align": true, "par": 1, "retries": []int{0, 2, 3, 3, 1}[rnd.Intn(5)],
+			retries := []int{0, 2, 3, 3, 1}[rnd.Intn(5)]
+			if fixed := [][4]int{{3, 0, 1, 400}, {3, 0, 1, 500}, {2, 0, 2, 503}, {3, 1, 2, 422}}; i < len(fixed) {
+				// every run covers: 4xx with retries left, 5xx absorbed, 5xx not absorbed, 4xx on a later sub-request
+				retries = fixed[i][0]
+				for _, q := range hist {
+					delete(q.(map[string]any), "fault")
+				}
+				hist[0].(map[string]any)["fault"] = map[string]any{"n": fixed[i][1], "k": fixed[i][2], "code": fixed[i][3]}
+			}
+			yield(vt.Case{"src": "rand-fault", "iv": iv, "align": true, "par": 1, "retries": retries,
 				"world": randWorld(rnd, T*tick, tick), "vunit": tick, "hist": hist})
 		}
 		// ---- (d) phase 2: metadata requests and instant queries (c42meta_test.go) ----
